@@ -449,4 +449,4 @@ def st_case(ctx: Ctx):
     )
 
 
-PARTS = [Part("pairs", check_case, strategy=st_case, quick=2400, thorough=80000)]
+PARTS = [Part("pairs", check_case, strategy=st_case, quick=9600, thorough=240000)]
